@@ -5,6 +5,7 @@
 package vsync
 
 import (
+	"reflect"
 	"sync"
 
 	"github.com/gabriel-vasile/mimetype/internal/verifx/sched"
@@ -76,8 +77,29 @@ type Pool struct {
 	New  func() any
 	real sync.Pool
 	idle []any
+	out  map[any]bool // objects taken from the idle list and not yet put back
 
 	registered bool
+}
+
+// Pool discipline (scheduler mode only): an object must never sit in a pool's
+// idle list twice, and must never be handed out while it is still checked out.
+// Either means two callers can hold the same scratch object at the same time.
+var poolFault string
+
+// PoolFault returns and clears the first discipline fault seen since the last call.
+func PoolFault() string {
+	f := poolFault
+	poolFault = ""
+	return f
+}
+
+func isPtr(x any) bool { return x != nil && reflect.ValueOf(x).Kind() == reflect.Ptr }
+
+func fault(msg string) {
+	if poolFault == "" {
+		poolFault = msg
+	}
 }
 
 // pools seen in scheduler mode (registration order = first use order)
@@ -97,7 +119,9 @@ func AllPools() []*Pool { return pools }
 func ResetPools() {
 	for _, p := range pools {
 		p.idle = nil
+		p.out = nil
 	}
+	poolFault = ""
 }
 
 func (p *Pool) Get() any {
@@ -113,6 +137,15 @@ func (p *Pool) Get() any {
 		}
 		x := p.idle[i]
 		p.idle = append(p.idle[:i], p.idle[i+1:]...)
+		if isPtr(x) {
+			if p.out[x] {
+				fault("a pool handed out an object that an earlier Get still holds")
+			}
+			if p.out == nil {
+				p.out = map[any]bool{}
+			}
+			p.out[x] = true
+		}
 		return x
 	}
 	if x := p.real.Get(); x != nil {
@@ -128,6 +161,14 @@ func (p *Pool) Put(x any) {
 	if h := sched.Active; h != nil {
 		p.register()
 		h.Point("pool.put", p)
+		if isPtr(x) {
+			for _, y := range p.idle {
+				if isPtr(y) && y == x {
+					fault("an object was put into a pool in which it is already idle (double Put): two later Gets, possibly on different goroutines, receive the same object")
+				}
+			}
+			delete(p.out, x)
+		}
 		p.idle = append(p.idle, x)
 		return
 	}
